@@ -81,6 +81,7 @@ BAR_SHAPES = [
     [],
     [("N", 7), ("C", 8), ("N", 7)],
     [("C", 1), ("N", 0), ("C", 7), ("R", 1), ("C", 0)],
+    [("N", 3), ("N", 3), ("N", 3), ("N", 0), ("N", 3), ("R", 3), ("N", 3), ("N", 0), ("N", 4), ("N", 0), ("N", 4)],
 ]
 # value tables per shape slot: (value, base, dots, ratio)
 SLOT = [
